@@ -117,6 +117,7 @@ func (s *scheme) VerifyRecovered(public kyber.Point, msg, sig []byte) error {
 // public sharing polynomial at index 0.
 func (s *scheme) Recover(public *share.PubPoly, msg []byte, sigs [][]byte, t, n uint32) ([]byte, error) {
 	var pubShares []*share.PubShare
+	seen := make(map[uint32]bool)
 	for _, sig := range sigs {
 		sh := SigShare(sig)
 		i, err := sh.Index()
@@ -124,6 +125,10 @@ func (s *scheme) Recover(public *share.PubPoly, msg []byte, sigs [][]byte, t, n 
 			continue
 		}
 		idx := uint32(i)
+		if seen[idx] {
+			// a second partial for the same index must not count towards t
+			continue
+		}
 		if err = s.Verify(public.Eval(idx).V, msg, sh.Value()); err != nil {
 			continue
 		}
@@ -132,6 +137,7 @@ func (s *scheme) Recover(public *share.PubPoly, msg []byte, sigs [][]byte, t, n 
 			continue
 		}
 		pubShares = append(pubShares, &share.PubShare{I: idx, V: point})
+		seen[idx] = true
 		if uint32(len(pubShares)) >= t {
 			break
 		}
